@@ -18,18 +18,19 @@ CFG = dict(
           "(trajectory runs + apply_rasterizer runs); distinct_nontrivial = distinct (start,end) pairs + (rasterizer,radius) + "
           "(a,b) pairs + apply instances, distinct by construction of the nested loops."),
     exhaustive={"quick": True, "thorough": True},
-    exhaustive_domain={"quick": "lines: all 25^4 = 390625 ordered end-point pairs in [-12,12]^2; circles r = 0..64 (both rasterizers); ellipses a,b = 1..32; apply_rasterizer(line) all directions in [-20,20]^2",
-                       "thorough": "lines: all 49^4 = 5764801 ordered end-point pairs in [-24,24]^2; circles r = 0..512; ellipses a,b = 1..96; apply_rasterizer(line) all directions in [-40,40]^2"},
+    exhaustive_domain={"quick": "lines: all 25^4 = 390625 ordered end-point pairs in [-12,12]^2; circles r = 0..64 (both rasterizers); ellipses a,b = 1..32; apply_rasterizer(line) all directions in [-20,20]^2.  Not exhaustive: the size class 'large' (lines of extent 1000..5000 at 12 minor extents x 8 orientations + 300 seeded; circles r in {513..5000} + 4 seeded; 25 ellipse pairs up to 5000 incl. 2000x3, 5000x1) is a sample",
+                       "thorough": "lines: all 49^4 = 5764801 ordered end-point pairs in [-24,24]^2; circles r = 0..512; ellipses a,b = 1..96; apply_rasterizer(line) all directions in [-40,40]^2.  Not exhaustive: the size class 'large' (3000 seeded lines, 51 radii up to 20000, 119 ellipse pairs up to 30000, one 3999x3999 drawing) is a sample"},
     types=["bresenham_line_rasterizer", "trigonometric_circle_rasterizer", "midpoint_circle_rasterizer",
            "midpoint_ellipse_rasterizer", "apply_rasterizer on gray8_view_t / rgb8_view_t (interleaved)"],
     assumptions=["the ellipse rasterizer has no point_count(); its observable output is obtain_trajectory() (first quadrant) and the pixels apply_rasterizer sets",
                  "ellipse centre is 1-based and >= 1 as documented; semi-axes >= 1; circle radius >= 0",
                  "'within one pixel' = minor-axis distance <= 1 (lines), |dist to centre - r| <= 1 (circles), ideal curve meets the closed 3x3 pixel neighbourhood (ellipse)",
                  "'closed' = the point set separates the centre from the outside under 4-connected flood fill and is one 8-connected component",
-                 "clipped ellipse views: 3 seeded (size, centre) choices per (a,b)"],
+                 "clipped ellipse views: 3 seeded (size, centre) choices per (a,b)",
+                 "large shapes: same oracles in exact 64/128-bit integers on the point lists; set-level circle oracles (symmetry, closedness, connectedness) only up to r = 1500 (2500 thorough); the ellipse flood fill is replaced above 2^24 grid cells by 'arc 8-connected from the x axis to the y axis'; circle/ellipse keys carry the suffix .large (line keys keep their direction class: F21b is the same defect at any extent)"],
     tus=[tu("c20_asan", "harness/c20_rasterizers.cpp", "asan")],
-    runs=[run("c20_asan", shards=16, min_cases={"quick": 1100, "thorough": 3600})],
+    runs=[run("c20_asan", shards=16, min_cases={"quick": 1190, "thorough": 4400})],
     require_obs=["line.dir.xmajor.xpos.ypos", "line.dir.xmajor.xneg.yneg", "line.dir.ymajor.xpos.yneg", "line.dir.ymajor.xneg.ypos",
                  "line.dir.diagonal.*", "line.dir.horizontal.*", "line.dir.vertical.*", "line.dir.point.*",
-                 "ellipse.apply.clipped", "ellipse.apply.whole"],
+                 "ellipse.apply.clipped", "ellipse.apply.whole", "large.line", "large.circle", "large.ellipse"],
 )
